@@ -37,7 +37,7 @@ def gen_scenario(rnd, k):
         template = [(1 + wf * 10 + c, rnd.choice(["always", "always", "optional", "alt"])) for c in range(nchild)]
         base_template = template
         any_order = rnd.random() < 0.5      # siblings of this workflow run in a different temporal order from trace to trace
-        for _ in range(rnd.choice([3, 5, 8])):
+        for _ in range(rnd.choice([3, 5, 8, 12])):
             if any_order:                   # (same span tree up to sibling order, different PV sequence)
                 template = list(base_template)
                 rnd.shuffle(template)
